@@ -243,6 +243,20 @@ func runC08(c *fw.Ctx) {
 			return a
 		}
 		atoms := []atom{mkAtom()}
+		if k%3 == 2 {
+			// a constant close to (relative distance ~3e-6), but different from, a value that occurs:
+			// equality must be exact
+			probe := db.Query(fmt.Sprintf("SELECT %s FROM t GROUP BY s, n", atoms[0].l), true)
+			if !probe.Failed() && len(probe.Rows) > 0 {
+				v := probe.Rows[r.Intn(len(probe.Rows))].Vals[0]
+				if v != 0 {
+					atoms[0].rIsField = false
+					atoms[0].rc = v * (1 + 3e-6)
+					atoms[0].op = []string{"=", "<>"}[r.Intn(2)]
+					c.Obs("having_near_equal_constants", 1)
+				}
+			}
+		}
 		conj := ""
 		if r.Intn(3) == 0 {
 			atoms = append(atoms, mkAtom())
@@ -378,6 +392,7 @@ func runC08(c *fw.Ctx) {
 	}
 
 	// ---------------- I: IN (SELECT dim ...)
+	prevSub, prevDim, prevLits := "", "", ""
 	for k := 0; k < c.Pick(6, 12) && !c.Violated(); k++ {
 		// only dims that every point has: a subquery row lacking the dim yields a NULL candidate, and
 		// whether NULL IN (..., NULL) matches is not something the statement fixes
@@ -435,6 +450,14 @@ func runC08(c *fw.Ctx) {
 		}
 		q1 := fmt.Sprintf("SELECT %s FROM t WHERE %s IN (%s)%s", selectSQL(fs), dim, sub, tail)
 		q2 := fmt.Sprintf("SELECT %s FROM t WHERE %s IN (%s)%s", selectSQL(fs), dim, strings.Join(lits, ", "), tail)
+		if prevSub != "" && r.Intn(2) == 0 {
+			// two IN-subqueries in one WHERE
+			conj := []string{"AND", "OR"}[r.Intn(2)]
+			q1 = fmt.Sprintf("SELECT %s FROM t WHERE %s IN (%s) %s %s IN (%s)%s", selectSQL(fs), prevDim, prevSub, conj, dim, sub, tail)
+			q2 = fmt.Sprintf("SELECT %s FROM t WHERE %s IN (%s) %s %s IN (%s)%s", selectSQL(fs), prevDim, prevLits, conj, dim, strings.Join(lits, ", "), tail)
+			c.Obs("in_subquery_pairs", 1)
+		}
+		prevSub, prevDim, prevLits = sub, dim, strings.Join(lits, ", ")
 		r1 := db.Query(q1, true)
 		r2 := db.Query(q2, true)
 		c.Obs("in_subquery_checks", 1)
